@@ -500,6 +500,41 @@ func genFresh(ctx *Ctx, emit func(Case)) {
 			emit(Case{Stream: "fresh.enc.repeat", Line: line, GoOut: out, Branch: fmt.Sprintf("rep%d", rep)})
 		}
 	}
+	// signature headers: the nonce on the wire is exactly what the randomness
+	// source delivered for this call (byte-exact against the model, and read back
+	// from the emitted header), attached and detached, both versions
+	for k := 0; k < ctx.N(8, 60); k++ {
+		signer, msg := r.Bytes(32), r.Bytes(smallLen(r))
+		for rep := 0; rep < 2; rep++ {
+			src := randSigScript(r, -1, 0)
+			var want []byte
+			for _, rd := range src.Reads {
+				want = append(want, rd.Data...)
+			}
+			for _, op := range []string{"sig.attached", "sig.detached"} {
+				line := fmt.Sprintf("%s %d 0 %s %s %d %s", op, 1+k%2, keys.Hex(signer), src.Spec(), mib, keys.Hex(msg))
+				if op == "sig.detached" {
+					line = fmt.Sprintf("%s %d 0 %s %s %s", op, 1+k%2, keys.Hex(signer), src.Spec(), keys.Hex(msg))
+				}
+				out := goExec(line)
+				emit(Case{Stream: "fresh.sig.nonce", Line: line, GoOut: out, Branch: fmt.Sprintf("%s/v%d/rep%d", op, 1+k%2, rep),
+					Direct: func() string {
+						b, ok := okBytes(out)
+						if !ok {
+							return ""
+						}
+						_, inner, _, _ := splitMsg(b)
+						if inner == nil || inner.K != mvArr || len(inner.Arr) < 5 {
+							return "emitted signature header does not parse: " + trunc(line, 300)
+						}
+						if !bytes.Equal(inner.Arr[4].Data, want) {
+							return fmt.Sprintf("the signature header's nonce (%x) is not the %d bytes the randomness source delivered for this call (%x): %s", inner.Arr[4].Data, len(want), want, trunc(line, 400))
+						}
+						return ""
+					}})
+			}
+		}
+	}
 	// and with the real crypto/rand: ephemeral key, sender secretbox and first
 	// ciphertext never repeat across identical calls
 	seen := map[string]bool{}
@@ -521,6 +556,34 @@ func genFresh(ctx *Ctx, emit func(Case)) {
 		}
 		emit(Case{Stream: "fresh.realrand", Line: line, GoOut: "bad-op", Branch: "real", Trivial: k > 0, Direct: func() string { return dup }})
 	}
+	sigKey := keys.NewSigSecret(r.Bytes(32), nil)
+	for k := 0; k < ctx.N(40, 400); k++ {
+		dup := ""
+		for vi, v := range []saltpack.Version{saltpack.Version1(), saltpack.Version2()} {
+			for di, det := range []bool{false, true} {
+				var b []byte
+				var err error
+				if det {
+					b, err = saltpack.SignDetached(v, []byte("same"), sigKey)
+				} else {
+					b, err = saltpack.Sign(v, []byte("same"), sigKey)
+				}
+				if err != nil {
+					continue
+				}
+				_, inner, _, _ := splitMsg(b)
+				if inner == nil || inner.K != mvArr || len(inner.Arr) < 5 {
+					continue
+				}
+				key := fmt.Sprintf("sig:%d:%d:%x", vi, di, inner.Arr[4].Data)
+				if seen[key] {
+					dup = fmt.Sprintf("two signing calls with identical arguments (version %d, detached=%v) produced the same header nonce %x", v.Major, det, inner.Arr[4].Data)
+				}
+				seen[key] = true
+			}
+		}
+		emit(Case{Stream: "fresh.realrand.sig", Line: fmt.Sprintf("noop fresh.realrand.sig %d", k), GoOut: "bad-op", Branch: "real", Trivial: k > 0, Direct: func() string { return dup }})
+	}
 }
 
 // howClass: branch label of a write-split suffix
@@ -537,12 +600,17 @@ func howClass(how string) string {
 
 // writeSplit: a random Write split for an n-byte plaintext ("" = all-at-once)
 func writeSplit(r *prng.R, n int) string {
+	if n >= mib+14 {
+		// always the shape "a few pending bytes, then one Write of more than a
+		// block": a direct-from-the-caller's-slice fast path must not overtake
+		// what is buffered
+		return fmt.Sprintf(" w=%d.%d", 1+r.Intn(13), mib+1+r.Intn(n-mib-13))
+	}
 	if n >= mib {
-		return prng.Pick(r, "", fmt.Sprintf(" w=13.%d", mib+1), fmt.Sprintf(" w=%d.1", mib-1), fmt.Sprintf(" w=1.%d", mib), fmt.Sprintf(" w=%d.%d", r.Intn(50), mib+r.Intn(40)), " w=0.5.0")
+		return prng.Pick(r, "", fmt.Sprintf(" w=%d.1", mib-1), fmt.Sprintf(" w=1.%d", mib), " w=0.5.0", fmt.Sprintf(" w=%d", mib))
 	}
 	return prng.Pick(r, "", "", " w=-1", " w=0", " w=1", " w=1.1.1", " w=3.0.7", fmt.Sprintf(" w=%d", r.Intn(n+1)), fmt.Sprintf(" w=%d.%d", r.Intn(n+1), r.Intn(n+1)))
 }
-
 // freshPredicate: C12's "bound to a header containing fresh randomness" — the
 // same signing request under a different header nonce must not present the key
 // with any input it was presented with before.
